@@ -22,7 +22,8 @@ import os
 
 from harness.check import Component, case_key
 
-LEAN_TARGETS = ["Aiortc.Props.C03"]
+LEAN_TARGETS = ["Aiortc.Props.C03", "Aiortc.Props.C03Iter"]
+AUDIT_PROPS = ["C03", "C03Iter"]
 DRIVERS = ["Negotiate"]
 MANIFEST = {
     "technique": "Lean 4 theorems over an executable model of the pure cores of createOffer / setLocalDescription / "
@@ -31,21 +32,30 @@ MANIFEST = {
                  "acceptance of real RTCPeerConnection pairs against the compiled model + implementation-side oracle incl. "
                  "connection and data-channel echo",
     "text": "For all codec lists / preference lists / extension lists the selected codecs, feedback and extensions were offered "
-            "(offerer's payload types and ids, RTX only behind its accepted base codec); for all pairs of modelled connections a "
-            "successful exchange leaves both sides stable, the answer mirroring the offer's sections and BUNDLE group with a definite "
-            "DTLS role, opposite roles and complementary current directions; the bundling step never stops the transport that "
-            "carries the bundle. Real pairs are run over the property's product space and compared with the model section by section.",
-    "note": "Success of the exchange is proved for initial exchanges of freshly configured connections under the Compatible "
-            "hypothesis only in the partial form documented in notes/C03.md; 'the session actually connects' is observed (oracle), not proved.",
+            "(offerer's payload types and ids, RTX only behind its accepted base codec). For every pair of well-formed modelled "
+            "connections (invariant WF: holds for new connections, preserved by addTransceiver/addTrack/createDataChannel/"
+            "setCodecPreferences/direction changes and by exchanges, includes transceivers the peer never matched) with compatible codec "
+            "preferences ALL SIX CALLS of an offer/answer exchange succeed (exchange_succeeds), and by induction over any script of "
+            "set-up operations and exchanges offered by either side (run_ok) every exchange succeeds, leaves both sides stable, the answer "
+            "mirroring the offer's sections and BUNDLE group with definite and opposite DTLS roles, section-wise the negotiated intersection "
+            "and complementary current directions; sections are only appended (never change kind or position), mids are never re-used and a "
+            "definite DTLS role never changes; the bundling step never stops the transport that carries the bundle. Real pairs are run over "
+            "the property's product space and compared with the model section by section.",
+    "note": "Compatible is a hypothesis (otherwise setRemoteDescription raises OperationError by design); it is given in checkable form "
+            "(PrefsOk: a family of preference lists, decidable for finite families) and proved for 'every list is empty or contains one fixed "
+            "real codec of its kind' (prefsOk_common). 'The session actually connects' is observed (oracle), not proved.",
     "design_ref": "DESIGN.md §2 C03",
 }
 ASSUMPTIONS = [
-    "Compatible: every media section has at least one real codec in common between the offer and the preferences of the transceiver "
-    "that answers it (otherwise setRemoteDescription raises OperationError by design); the oracle accepts OperationError only for "
-    "scripts in which two same-kind transceivers of the two sides have disjoint non-empty preferences",
-    "per-section theorems (codecs/extensions subset, complementary directions, opposite roles) assume what the model's createOffer "
-    "guarantees and the harness observes on every real offer: mids of an offer are pairwise distinct and not yet used by a "
-    "transceiver of another kind on the answerer",
+    "Compatible (hypothesis of exchange_succeeds / negotiate_ok): whatever preference lists of the two sides meet on a section of a kind "
+    "(the empty list standing for 'no preference' and for transceivers created on the fly), the answer keeps a codec and so does what the "
+    "offerer stores; without it setRemoteDescription raises OperationError by design (witness rtx_only_preference_fails). Sufficient, "
+    "proved: every preference list is empty or contains one fixed real capability of its kind (prefsOk_common, compatible_of_common_codec); "
+    "decidable for any finite family of lists (prefsOk_of_check). The oracle accepts OperationError only when two same-kind transceivers of "
+    "the two real connections have non-empty preferences without a common real codec",
+    "run_ok quantifies over scripts whose kinds are audio/video and whose setCodecPreferences calls install lists of a PrefsOk family; a "
+    "set-up call that raises (IndexError / ValueError) is a no-op on the connection",
+    "WF / Paired / RolePair are invariants, not assumptions: they hold for new connections (inv_new) and are preserved by every operation",
     "fmtp parameters are int or str valued (no bare flags), H264 profile-level-id values lie in the regenerated graph of "
     "parse_h264_profile_level_id (all values of aiortc's own tables do)",
     "both peers are aiortc connections (descriptions come from createOffer/createAnswer of the other peer); calls are sequential",
@@ -658,9 +668,9 @@ CORPUS = [
 
 class Exchange(Component):
     name = "exchange"
-    theorems = ["negotiate_mirrors", "negotiate_stable", "negotiate_roles_definite", "exchange_sections", "answer_codecs_offered",
-                "directions_complementary", "common_codecs_offered", "negotiated_codecs_offered", "header_extensions_offered",
-                "bundle_keeps_primary", "bundle_moves_all", "allocate_mid_fresh"]
+    theorems = ["exchange_succeeds", "run_ok", "exchange_sections_any", "exchange_roles_opposite", "negotiate_mirrors", "negotiate_stable",
+                "negotiate_roles_definite", "answer_codecs_offered", "directions_complementary", "common_codecs_offered",
+                "negotiated_codecs_offered", "header_extensions_offered", "bundle_keeps_primary", "bundle_moves_all", "allocate_mid_fresh"]
 
     def __init__(self, tier):
         self.tier = tier
